@@ -4,6 +4,7 @@ import Abyss.Stats
 import Abyss.Render
 import Abyss.Check
 import Abyss.Open
+import Abyss.Parse
 /-!
 # Line-protocol driver of the executable model (no Mathlib; built as `abyss-driver`)
 One request per input line, one answer line per request. See harness/src/proto.rs.
@@ -229,6 +230,17 @@ def handle (ms : Maps) (line : String) : IO (Maps × String) := do
             | _ => img
           return (ms, if openAccepts kt2 img then "accept" else "reject")
         | _, _, _ => return (ms, "bad-op")
+      | "parse", [dir] =>
+        let rd := fun (e : String) => do
+          let ba ← IO.FS.readBinFile s!"{dir}/{name}.{e}"
+          pure (ba.toList.map (·.toNat))
+        let img : Image := ⟨← rd "htx", ← rd "key", ← rd "val"⟩
+        match parse kt img with
+        | none => return (ms, "parse=FAIL")
+        | some t =>
+          let same := if t.sameB s then "ok" else "DIFF"
+          let inv := match t.checkInv kt with | none => "ok" | some e => "FAIL:" ++ e
+          return (ms, s!"parse=ok same={same} inv={inv}")
       | "check", [] =>
         match s.checkInv kt with
         | none => return (ms, "inv-ok")
